@@ -509,12 +509,12 @@ mut("c11-stateless-memo", "C11", "sequence.go",
 
 # ---------------------------------------------------------------- round-4 rules
 mut("c03-kind-complement-unwrapped", "C03", "location.go",
-    "\tcase Ordered:\n\t\tfor i, u := range v {\n\t\t\tv[i] = asComplete(u)\n\t\t}\n\t\treturn v\n\tdefault:",
-    "\tcase Ordered:\n\t\tfor i, u := range v {\n\t\t\tv[i] = asComplete(u)\n\t\t}\n\t\treturn v\n\tcase Complemented:\n\t\treturn asComplete(v.Location)\n\tdefault:",
+    "\tcase Complemented:\n\t\treturn Complemented{asComplete(v.Location)}\n",
+    "\tcase Complemented:\n\t\treturn asComplete(v.Location)\n",
     ["KIND-PRESERVE|gts.asComplete|case=Complemented"])
 mut("c03-kind-silent-complement-rewrapped", "C03", "location.go",
-    "\tcase Ordered:\n\t\tfor i, u := range v {\n\t\t\tv[i] = asComplete(u)\n\t\t}\n\t\treturn v\n\tdefault:",
-    "\tcase Ordered:\n\t\tfor i, u := range v {\n\t\t\tv[i] = asComplete(u)\n\t\t}\n\t\treturn v\n\tcase Complemented:\n\t\treturn Complemented{asComplete(v.Location)}\n\tdefault:",
+    "\tcase Complemented:\n\t\treturn Complemented{asComplete(v.Location)}\n",
+    "\tcase Complemented:\n\t\treturn Complemented{Location: asComplete(v.Location)}\n",
     silent=True, note="looking through the wrapper and putting it back keeps the kind")
 mut("c10-complete-in-delete", "C10", "sequence.go",
     "\t\tf.Loc = f.Loc.Expand(offset, -length)\n\t\tff[i] = f\n",
@@ -835,6 +835,10 @@ mut("c19-strand-silent-if-chain", "C19", "location.go", "\tswitch {\n\tcase r ==
 
 mut("c14-raise-dropped-reverted", "C14", "cmd/gts/search.go", "\t\t\treturn ctx.Raise(fmt.Errorf(\"query sequence file %q does not contain a sequence\", *queryPath))\n", "\t\t\tctx.Raise(fmt.Errorf(\"query sequence file %q does not contain a sequence\", *queryPath))\n", ["RAISE-RETURNED|main.searchFunc|Raise#2"], note="the repaired defect, reintroduced")
 mut("c14-raise-silent-through-variable", "C14", "cmd/gts/search.go", "\t\t\treturn ctx.Raise(fmt.Errorf(\"query sequence file %q does not contain a sequence\", *queryPath))\n", "\t\t\treturn (ctx.Raise(fmt.Errorf(\"query sequence file %q does not contain a sequence\", *queryPath)))\n", silent=True)
+
+mut("c03-complete-wrappers-reverted", "C03", "location.go", "\tcase Complemented:\n\t\treturn Complemented{asComplete(v.Location)}\n\tdefault:\n\t\treturn v\n\t}\n}\n\n// PartialRange", "\tdefault:\n\t\treturn v\n\t}\n}\n\n// PartialRange", ["COMPLETE-WRAPPERS|gts.asComplete|kind=Complemented"], note="the repaired defect, reintroduced")
+mut("c03-complete-wrappers-no-recursion", "C03", "location.go", "\tcase Complemented:\n\t\treturn Complemented{asComplete(v.Location)}\n", "\tcase Complemented:\n\t\treturn Complemented{v.Location}\n", ["COMPLETE-WRAPPERS|gts.asComplete|kind=Complemented"])
+mut("c03-complete-wrappers-silent-local", "C03", "location.go", "\tcase Complemented:\n\t\treturn Complemented{asComplete(v.Location)}\n", "\tcase Complemented:\n\t\tinner := asComplete(v.Location)\n\t\treturn Complemented{inner}\n", silent=True)
 
 # ---------------------------------------------------------------- refactoring round 3
 mut("c02-normalise-silent-tagless-switch", "C02", "location.go",
